@@ -316,7 +316,7 @@ class Pile(Widget, WidgetContainerMixin, WidgetContainerListContentsMixin):
 
     @widget_list.setter
     def widget_list(self, widgets):
-        focus_position = self.focus_position
+        focus_position = self.focus_position if self.contents else 0
         self.contents = [
             (new, options)
             for (new, (w, options)) in zip(
